@@ -1339,3 +1339,34 @@ Proof.
   rewrite (validate_ids_sound _ _ Hi). cbn [bind]. rewrite Ht, Hkind, Hs, Ho. cbn [andb check bind].
   rewrite W. cbn [bind]. rewrite H1, V. repeat split; reflexivity.
 Qed.
+
+(* ------------------------------------------------------------------ pulse-correlation infidelity, control matrix gone *)
+Definition pc_ready (x : pc_infid_d) : Prop :=
+  let a := pi_a x in
+  (forall l, a_ids a = Some l -> incl l (map n_id (p_n (a_pulse a)))) /\
+  arraylike (s_kind (a_spectrum a)) = true /\ arraylike (a_omega_kind a) = true /\
+  omega_matches (a_pulse a) (a_omega_tag a) = true /\ pi_ff_cached x = true /\
+  documented_spectrum_shape (s_shape (a_spectrum a)) (n_selected (map n_id (p_n (a_pulse a))) (a_ids a)) (a_omega_len a) /\
+  (length (s_shape (a_spectrum a)) = 3 -> s_herm (a_spectrum a) = true).
+
+Theorem pc_infidelity_spec x : pc_ready x ->
+  let sel := selected_traces (map n_id (p_n (a_pulse (pi_a x)))) (a_ids (pi_a x)) (pi_traces x) in
+  (* with the control matrix cached: accepted *)
+  (pi_cm_cached x = true -> validate_pc_infidelity x = ok) /\
+  (* control matrix gone, every selected operator traceless: accepted *)
+  (pi_cm_cached x = false -> Forall (fun b => b = false) sel -> validate_pc_infidelity x = ok) /\
+  (* control matrix gone, a selected operator with non-zero trace at ANY position of the selection (whatever the other
+     traces are, in particular when they cancel in the sum): CalculationError *)
+  (pi_cm_cached x = false -> (exists i, i < length sel /\ nth i sel false = true) -> validate_pc_infidelity x = Raise CalculationError).
+Proof.
+  intros (Hi & Hs & Ho & Hm & Hf & Hsh & Hh) sel. unfold validate_pc_infidelity.
+  rewrite (validate_ids_sound _ _ Hi). cbn [bind]. rewrite Hs, Ho, Hm, Hf. cbn [andb orb check bind]. fold sel.
+  repeat split.
+  - intros ->. cbn [orb check bind]. apply (validate_spectrum_sound _ _ _ Hsh Hh).
+  - intros -> HF. assert (E : existsb (fun b => b) sel = false).
+    { induction HF as [|b l Hb _ IH]; simpl; auto. subst. exact IH. }
+    rewrite E. cbn [orb bind]. apply (validate_spectrum_sound _ _ _ Hsh Hh).
+  - intros -> [i [Hi' Hn]]. assert (E : existsb (fun b => b) sel = true).
+    { apply existsb_exists. exists true. split; [|reflexivity]. rewrite <- Hn. apply nth_In. exact Hi'. }
+    rewrite E. reflexivity.
+Qed.
